@@ -97,19 +97,26 @@ Section Units.
   Definition usize (ud : udesc) : Z := uh_size (ud_hdr ud).
   Definition contains (a : Z) (ud : udesc) : bool := (ud_off ud <=? a) && (a <? ud_off ud + uh_size (ud_hdr ud)).
 
+  Lemma wf_file_all : units_chain 0 (f_units F) (f_info_size F) = true /\
+    forallb (wf_unit F) (f_units F) = true /\ wf_lines F = true /\
+    wf_cfi (f_cfi_ents F) = true /\ wf_cfi (f_ehcfi_ents F) = true /\ wf_elf F = true.
+  Proof.
+    unfold wf_file in WF. apply andb_prop in WF. destruct WF as [W H6].
+    apply andb_prop in W. destruct W as [W H5]. apply andb_prop in W. destruct W as [W H4].
+    apply andb_prop in W. destruct W as [W H3]. apply andb_prop in W. destruct W as [H1 H2]. auto 10.
+  Qed.
+
   Lemma wf_file_parts : units_chain 0 (f_units F) (f_info_size F) = true /\
     (forall ud, In ud (f_units F) -> wf_unit F ud = true) /\ wf_elf F = true.
   Proof.
-    unfold wf_file in WF. apply andb_prop in WF. destruct WF as [W H3].
-    apply andb_prop in W. destruct W as [W H4].
-    apply andb_prop in W. destruct W as [H1 H2]. rewrite forallb_forall in H2. auto.
+    destruct wf_file_all as (H1 & H2 & _ & _ & _ & H6). rewrite forallb_forall in H2. auto.
   Qed.
 
   Lemma wf_file_lines : wf_lines F = true.
-  Proof.
-    unfold wf_file in WF. apply andb_prop in WF. destruct WF as [W H3].
-    apply andb_prop in W. destruct W as [W H4]. exact H4.
-  Qed.
+  Proof. apply wf_file_all. Qed.
+
+  Lemma wf_file_cfi eh : wf_cfi (cfi_ents F eh) = true.
+  Proof. destruct wf_file_all as (_ & _ & _ & H4 & H5 & _). destruct eh; assumption. Qed.
 
   Lemma chain_bounds l : forall pos size, units_chain pos l size = true ->
     pos <= size /\ forall ud, In ud l -> pos <= ud_off ud /\ 0 < usize ud /\ ud_off ud + usize ud <= size.
